@@ -112,6 +112,40 @@ def handler(payload):
                         return img.export(padding=pad)
                     rec["second"] = res(guarded(second, seconds=60), lambda d: d.hex())
             out.append(rec)
+        elif o == "history20":
+            keep.clear()
+            case = op["case"]
+            if case["signed"]:
+                try:
+                    provider(case["chain"])
+                except Exception as ex:  # noqa
+                    out.append({"harness_error": f"signature provider for chain {case['chain']}: {type(ex).__name__}: {ex}"})
+                    continue
+            r1 = guarded(lambda: build(case), seconds=60)
+            rec = {"first": res(r1, lambda d: d.hex())}
+            if r1[0] == "ok":
+                img = keep["img"]
+                ch = op["change"]
+                pad = bytes.fromhex(case["padding"]) if case.get("padding") is not None else None
+
+                def mk_sec(s_):
+                    return BootSectionV2(s_["uid"], *[mk_cmd(c, C, ExtMemId, MemIdEnum) for c in s_["cmds"]],
+                                         hmac_count=s_["hmac"], zero_filling=bool(s_.get("zero", 0)))
+
+                def changed():
+                    if ch["kind"] == "add_cmd":
+                        img[ch["section"]].append(mk_cmd(ch["cmd"], C, ExtMemId, MemIdEnum))
+                    elif ch["kind"] == "add_section":
+                        img.add_boot_section(mk_sec(ch["sec"]))
+                    elif ch["kind"] == "replace_section":
+                        img[ch["section"]] = mk_sec(ch["sec"])
+                    elif ch["kind"] == "set_uid":
+                        img[ch["section"]].uid = ch["uid"]
+                    img.update()
+                    return img.export(padding=pad)
+                rec["changed"] = res(guarded(changed, seconds=60), lambda d: d.hex())
+                rec["fresh_changed"] = res(guarded(lambda: build(op["changed_case"]), seconds=60), lambda d: d.hex())
+            out.append(rec)
         elif o == "parse20":
             d = bytes.fromhex(op["data"])
             kek = bytes.fromhex(op["kek"])
